@@ -37,6 +37,42 @@ class ModuleInfo(object):
         self.cache = {}
         self._scan()
 
+    def runtime_mutated(self):
+        """ module-level names bound to objects that some function of this module modifies in place (item store / delete,
+            mutating method, attribute store) or re-binds (global statement): state that outlives a call """
+        if getattr(self, '_rtm', None) is None:
+            from .frame import MUTATORS
+            out = set()
+            top = set(k for k, v in self.defs.items() if v[0] in ('assign', 'assign_item'))
+            for fn in ast.walk(self.tree):
+                if not isinstance(fn, (ast.FunctionDef, ast.Lambda)):
+                    continue
+                a = fn.args
+                local = set(x.arg for x in a.args + a.kwonlyargs) | set(x.arg for x in (a.vararg, a.kwarg) if x)
+                globs = set()
+                for n in ast.walk(fn):
+                    if isinstance(n, ast.Global):
+                        globs.update(n.names)
+                    elif isinstance(n, ast.Name) and isinstance(n.ctx, ast.Store):
+                        local.add(n.id)
+                local -= globs
+                out.update(g for g in globs if g in top)
+
+                def hit(e):
+                    if isinstance(e, ast.Name) and e.id in top and e.id not in local:
+                        out.add(e.id)
+                for n in ast.walk(fn):
+                    if isinstance(n, ast.Call) and isinstance(n.func, ast.Attribute) and n.func.attr in MUTATORS:
+                        hit(n.func.value)
+                    elif isinstance(n, (ast.Assign, ast.AugAssign, ast.Delete)):
+                        for t in (n.targets if isinstance(n, (ast.Assign, ast.Delete)) else [n.target]):
+                            if isinstance(t, ast.Subscript):
+                                hit(t.value)
+                            elif isinstance(t, ast.Attribute) and not t.attr.startswith('__'):
+                                hit(t.value)
+            self._rtm = out
+        return self._rtm
+
     def _scan(self):
         pkg = self.name.rsplit('.', 1)[0] if '.' in self.name else ''
         is_pkg = os.path.basename(self.path) == '__init__.py'
@@ -271,6 +307,10 @@ class World(object):
         return v
 
     def resolve_global(self, it, module, name):
+        if not module.is_spec and name in module.runtime_mutated():
+            # what it holds when the function under contract is entered depends on the calls made before: nothing the
+            # contract quantifies over - a proof that read its import-time value would be a proof about fresh processes only
+            raise OutOfReach('module-level object %s.%s is modified by functions at run time: its content depends on the history' % (module.name, name))
         try:
             return self.module_attr(it, module, name)
         except PyRaise:
@@ -330,7 +370,17 @@ class World(object):
     def call_by_contract(self, it, fn, args, kwargs):
         c = self.contracts.get(fn.fullname)
         if c is None:
-            raise OutOfReach('no contract for callee %s' % fn.fullname)
+            # a helper without a contract (for instance one that a refactoring has just split off): there is nothing to check
+            # the caller against, so its body is executed as part of the caller (flagged; nesting bounded)
+            depth = getattr(it, 'inline_depth', 0)
+            if depth >= 3:
+                raise OutOfReach('no contract for callee %s (uncontracted helpers nested deeper than 3)' % fn.fullname)
+            it.ctx.flags.add('inlined uncontracted callee %s' % fn.fullname)
+            it.inline_depth = depth + 1
+            try:
+                return it.run_function(fn.node, fn.module, args, kwargs, func=fn)
+            finally:
+                it.inline_depth = depth
         cur = self.current
         inl = (cur.decl.get('inline_callees') or ()) if cur is not None else ()
         if cur is not None and (c.name in inl or fn.qualname in inl):
@@ -432,15 +482,7 @@ def _merge_eval(it, thunk):
             raise OutOfReach('predicate has too many paths')
         sub = Ctx(prefix)
         sub.counter = parent.counter + 1000 * guard
-        for c in parent.pc:
-            sub.solver.add(c)
-        for c in parent.axioms:
-            sub.solver.add(c)
-        sub._axiom_keys = set(parent._axiom_keys)
-        sub.flags = parent.flags
-        if parent.has_quant:
-            sub.has_quant = True
-            sub.solver.set('timeout', sub.FEAS_TIMEOUT_QUANT_MS)
+        sub.inherit(parent)
         it2 = Interp(it.world, sub)
         res = None
         try:
@@ -479,15 +521,7 @@ def merge_value(it, thunk):
             raise OutOfReach('expression has too many paths')
         sub = Ctx(prefix)
         sub.counter = parent.counter + 1000 * guard
-        for c in parent.pc:
-            sub.solver.add(c)
-        for c in parent.axioms:
-            sub.solver.add(c)
-        sub._axiom_keys = set(parent._axiom_keys)
-        sub.flags = parent.flags
-        if parent.has_quant:
-            sub.has_quant = True
-            sub.solver.set('timeout', sub.FEAS_TIMEOUT_QUANT_MS)
+        sub.inherit(parent)
         it2 = Interp(it.world, sub)
         val = None
         try:
@@ -942,7 +976,7 @@ class SpecAPI(object):
             self.table[nm] = Err(i)
         from . import api as _api
         for nm in ('NONE_T', 'BOOL', 'INT', 'FLOAT', 'STR', 'ERR', 'DATE', 'NUMBER', 'NUMBERB', 'SCALAR', 'HOSTOBJ',
-                   'ANY', 'VALUE_T', 'HOSTFN', 'SYMMAP', 'SYMMAP_LISTS'):
+                   'ANY', 'VALUE_T', 'HOSTFN', 'EXC', 'SYMMAP', 'SYMMAP_LISTS'):
             self.table[nm] = getattr(_api, nm)
         self.table['OMITTED'] = _api.OMITTED
         self.table['datetime'] = ExtRef('datetime')
@@ -1199,6 +1233,11 @@ class SpecAPI(object):
     def s_called(self, it, a, k):
         """ ghost call log: was the repo function with this (suffix of its) name called during the function under contract? """
         return any(isinstance(e, tuple) and e[0] == 'call' and e[1].endswith(a[0]) for e in it.ctx.log)
+
+    def s_callee_outcomes(self, it, a, k):
+        """ ghost log: the outcomes the contracts of the callees whose target ends with this name produced, in call order:
+            objects with .ret, .value, .exc, .err (error value of a raised XLError), .raised (the exception object) """
+        return [e[2] for e in it.ctx.log if isinstance(e, tuple) and e[0] == 'outcome' and e[1].endswith(a[0])]
 
     def s_calls(self, it, a, k):
         fn = a[0]
